@@ -638,6 +638,11 @@ def check_infinity_sign(r, repo, rule="R13.7"):
                 return True
             if isinstance(x, ast.Call) and (dotted(x.func) or "").split(".")[-1] in ("isposinf", "isneginf", "signbit", "copysign"):
                 return True
+            # the sign character of a spelled value: b.startswith("-"), b[0] == "-", "-" in b
+            if isinstance(x, ast.Call) and isinstance(x.func, ast.Attribute) and x.func.attr == "startswith" and x.args and isinstance(x.args[0], ast.Constant) and x.args[0].value in ("-", "+"):
+                return True
+            if isinstance(x, ast.Compare) and any(isinstance(c, ast.Constant) and c.value in ("-", "+") for c in [x.left] + list(x.comparators)):
+                return True
         return False
 
     n_sites = 0
@@ -680,6 +685,214 @@ def check_infinity_sign(r, repo, rule="R13.7"):
 
 
 
+def check_signed_zero_string(r, repo, rule="R13.8"):
+    """The binary significand/exponent string can spell a negative zero, so the round trip float -> string -> float has to keep
+    it (the property exempts only the fraction, which cannot).  float2bin: a return that spells zero must distinguish the sign
+    bit of its argument (signbit / copysign: `f >= 0` and `f < 0` are both blind to -0.0); bin2float: the negative-zero
+    spelling has its own comparison, which returns a *float* negative zero (an integer -0 has no sign)."""
+    import re as _re
+
+    f2b = repo.func(REL, "float2bin")
+    par = f2b.args.args[0].arg
+    zero_spell = set()
+    n_zero = 0
+    for ret in [n for n in ast.walk(f2b) if isinstance(n, ast.Return) and n.value is not None]:
+        owner = ret
+        while owner is not None and not isinstance(owner, (ast.FunctionDef, ast.Lambda)):
+            owner = getattr(owner, "_parent", None)
+        if owner is not f2b:
+            continue
+        if any(isinstance(x, (ast.JoinedStr, ast.FormattedValue)) for x in ast.walk(ret.value)):
+            continue
+        consts = [x.value for x in ast.walk(ret.value) if isinstance(x, ast.Constant) and isinstance(x.value, str)]
+        if not consts or not all(_re.fullmatch(r"[-+]?0(\.0*)?", c) for c in consts):
+            continue
+        n_zero += 1
+        sees_sign = any(isinstance(c, ast.Call) and (dotted(c.func) or "").split(".")[-1] in ("signbit", "copysign") and any(dotted(a) == par for a in c.args) for c in ast.walk(ret.value))
+        if not sees_sign:
+            # or the return is reached under a test of the sign bit
+            node = ret
+            while node is not None and node is not f2b:
+                parent = getattr(node, "_parent", None)
+                if isinstance(parent, ast.If) and any(isinstance(c, ast.Call) and (dotted(c.func) or "").split(".")[-1] in ("signbit", "copysign") for c in ast.walk(parent.test)):
+                    sees_sign = True
+                node = parent
+        neg = [c for c in consts if c.startswith("-")]
+        zero_spell |= set(neg)
+        r.ob(rule, f"{REL}::float2bin zero spelling `{norm_src(ret.value)}` keeps the sign bit", sees_sign,
+             f"float2bin returns `{norm_src(ret.value)}` for a zero whatever its sign bit: float2bin(-0.0) and float2bin(0.0) are the same string, so bin2float gives +0.0 back "
+             "for -0.0 (comparisons such as `f >= 0` do not see the sign of zero)", loc(REL, ret))
+    if n_zero == 0:
+        raise AnalysisError("float2bin: no return spelling zero found")
+    b2f = repo.func(REL, "bin2float")
+    bpar = b2f.args.args[1].arg
+    handled = False
+    for node in ast.walk(b2f):
+        if isinstance(node, ast.If) and isinstance(node.test, ast.Compare) and len(node.test.ops) == 1 and isinstance(node.test.ops[0], ast.Eq) and dotted(node.test.left) == bpar \
+                and isinstance(node.test.comparators[0], ast.Constant) and isinstance(node.test.comparators[0].value, str) and _re.fullmatch(r"-0(\.0*)?", node.test.comparators[0].value):
+            rets = [x for x in node.body if isinstance(x, ast.Return) and x.value is not None]
+            for rt in rets:
+                v = rt.value
+                int_neg_zero = any(isinstance(x, ast.UnaryOp) and isinstance(x.op, ast.USub) and isinstance(x.operand, ast.Constant) and type(x.operand.value) is int for x in ast.walk(v))
+                neg_float = (isinstance(v, ast.UnaryOp) and isinstance(v.op, ast.USub) and isinstance(v.operand, ast.Call)) or "copysign" in norm_src(v) \
+                    or any(isinstance(x, ast.Constant) and isinstance(x.value, float) and str(x.value) == "-0.0" for x in ast.walk(v)) \
+                    or any(isinstance(x, ast.UnaryOp) and isinstance(x.op, ast.USub) and isinstance(x.operand, ast.Constant) and type(x.operand.value) is float for x in ast.walk(v))
+                handled = handled or (neg_float and not int_neg_zero)
+    r.ob(rule, f"{REL}::bin2float reads the negative-zero spelling", handled,
+         "bin2float has no branch that turns the spelling of a negative zero into a float negative zero: the string round trip of -0.0 is +0.0", loc(REL, b2f))
+
+
+def check_empty_expansion(r, repo, rule="R13.9"):
+    """Zero is a finite float: its expansion must convert back.  A producer that builds its result by appending to an empty list
+    and can leave the loop before the first append (the word is zero) returns [] for zero; the converter back then must not
+    index its argument unguarded (`e[-1]` of an empty list raises IndexError).  Producers and consumers are found by shape:
+    path enumeration over the producer (a returning path without any append/extend after `lst = []`), and an unguarded
+    constant subscript of the parameter in the consumer."""
+    from sa.paths import enumerate_paths
+
+    for group, prods, cons in (("expansion", ("float2expansion", "fraction2expansion", "mpf2expansion"), "expansion2mpf"), ("multiword", ("mpf2multiword",), "multiword2mpf")):
+        _check_empty_group(r, repo, rule, group, prods, cons)
+
+
+def _check_empty_group(r, repo, rule, group, prods, cname):
+    from sa.paths import enumerate_paths
+
+    producers = []
+    for fname in prods:
+        f = repo.func(REL, fname)
+        may_be_empty = False
+        for p in enumerate_paths(f, unroll=(0, 1), limit=20000):
+            if p.exit != "return" or p.exit_node.value is None or not isinstance(p.exit_node.value, ast.Name):
+                continue
+            lname = p.exit_node.value.id
+            init = [i for i, e in enumerate(p.events) if e.kind == "stmt" and isinstance(e.node, ast.Assign) and any(isinstance(t, ast.Name) and t.id == lname for t in e.node.targets)]
+            if not init or not (isinstance(p.events[init[-1]].node.value, ast.List) and not p.events[init[-1]].node.value.elts):
+                continue
+            grown = False
+            for e in p.events[init[-1] + 1:]:
+                if e.kind == "stmt":
+                    for c in ast.walk(e.node):
+                        if isinstance(c, ast.Call) and isinstance(c.func, ast.Attribute) and c.func.attr in ("append", "extend", "insert") and dotted(c.func.value) == lname:
+                            # an extend guarded by an option (functional padding) does not count: it is not taken by default
+                            grown = grown or c.func.attr == "append"
+            if not grown:
+                may_be_empty = True
+        if may_be_empty:
+            producers.append(fname)
+    if not producers:
+        r.ob(rule, f"{REL}::{group} producers never return an empty list", True, "", loc(REL, repo.func(REL, prods[0])))
+        return
+    for cname in (cname,):
+        c = repo.func(REL, cname)
+        par = c.args.args[1].arg
+        bad = []
+        for sub in ast.walk(c):
+            if isinstance(sub, ast.Subscript) and dotted(sub.value) == par and isinstance(sub.slice, (ast.Constant, ast.UnaryOp)):
+                # guarded when an enclosing if / an earlier returning if tests the parameter's truth or length
+                guarded = False
+                node = sub
+                while node is not None and node is not c:
+                    parent = getattr(node, "_parent", None)
+                    if isinstance(parent, (ast.If, ast.IfExp)) and any(isinstance(x, ast.Name) and x.id == par for x in ast.walk(parent.test)):
+                        guarded = True
+                    node = parent
+                st = sub
+                while st is not None and not isinstance(st, ast.stmt):
+                    st = getattr(st, "_parent", None)
+                for prev in c.body:
+                    if prev is st:
+                        break
+                    if isinstance(prev, ast.If) and any(isinstance(x, ast.Name) and x.id == par for x in ast.walk(prev.test)) and any(isinstance(x, (ast.Return, ast.Raise)) for x in prev.body):
+                        guarded = True
+                if not guarded:
+                    bad.append(sub)
+        r.ob(rule, f"{REL}::{cname} accepts the empty {group}", not bad,
+             f"{', '.join(producers)} return [] for zero (the loop is left before the first append), and {cname} evaluates `{norm_src(bad[0]) if bad else ''}` unguarded: "
+             f"the round trip float -> {group} -> back raises IndexError for 0.0 and -0.0", loc(REL, bad[0] if bad else c))
+
+
+def check_special_spellings(r, repo, rule="R13.10"):
+    """Writer/reader agreement on the special values of the binary string: every spelling without an exponent that float2bin or
+    mpf2bin can return ("0", "-0", "inf", "-inf", "nan" ...) must be taken by one of the tests at the head of bin2float - a
+    string that reaches the significand/exponent parser without a "p" raises.  The writers' spellings are read off their return
+    statements (an f-string `{sign}inf` stands for both signs); the reader's tests are evaluated on each spelling."""
+    import re as _re
+
+    spellings = {}
+    for wname in ("float2bin", "mpf2bin"):
+        w = repo.func(REL, wname)
+        for ret in [n for n in ast.walk(w) if isinstance(n, ast.Return) and n.value is not None]:
+            v = ret.value
+            outs = []
+            if isinstance(v, ast.Constant) and isinstance(v.value, str):
+                outs = [v.value]
+            elif isinstance(v, ast.IfExp) and all(isinstance(a, ast.Constant) and isinstance(a.value, str) for a in (v.body, v.orelse)):
+                outs = [v.body.value, v.orelse.value]
+            elif isinstance(v, ast.JoinedStr):
+                consts = "".join(x.value for x in v.values if isinstance(x, ast.Constant))
+                nfmt = sum(1 for x in v.values if isinstance(x, ast.FormattedValue))
+                if "p" not in consts and nfmt == 1 and isinstance(v.values[0], ast.FormattedValue):
+                    outs = [consts, "-" + consts]  # `{sign}inf`
+            for o in outs:
+                if "p" not in o:
+                    spellings.setdefault(o, (wname, ret))
+    if not {"nan", "inf"} <= set(spellings):
+        raise AnalysisError(f"float2bin/mpf2bin: special spellings not recognised (found {sorted(spellings)})")
+    b2f = repo.func(REL, "bin2float")
+    bpar = b2f.args.args[1].arg
+
+    class _Unknown(Exception):
+        pass
+
+    def truth(t, sval):
+        if isinstance(t, ast.BoolOp):
+            vals = [truth(x, sval) for x in t.values]
+            return all(vals) if isinstance(t.op, ast.And) else any(vals)
+        if isinstance(t, ast.UnaryOp) and isinstance(t.op, ast.Not):
+            return not truth(t.operand, sval)
+        if isinstance(t, ast.Compare) and len(t.ops) == 1 and dotted(t.left) == bpar:
+            c = t.comparators[0]
+            if isinstance(c, ast.Constant) and isinstance(t.ops[0], (ast.Eq, ast.NotEq)):
+                return (sval == c.value) == isinstance(t.ops[0], ast.Eq)
+            if isinstance(c, (ast.Tuple, ast.List, ast.Set)) and all(isinstance(x, ast.Constant) for x in c.elts) and isinstance(t.ops[0], (ast.In, ast.NotIn)):
+                return (sval in {x.value for x in c.elts}) == isinstance(t.ops[0], ast.In)
+        if isinstance(t, ast.Call) and isinstance(t.func, ast.Attribute) and dotted(t.func.value) == bpar and t.func.attr in ("startswith", "endswith") \
+                and len(t.args) == 1 and isinstance(t.args[0], ast.Constant):
+            return getattr(sval, t.func.attr)(t.args[0].value)
+        raise _Unknown(norm_src(t))
+
+    def taken(stmts, sval):
+        """the return statement reached by sval in a leading chain of if/elif tests on the parameter, or None"""
+        for st in stmts:
+            if isinstance(st, ast.If):
+                try:
+                    tv = truth(st.test, sval)
+                except _Unknown:
+                    return None
+                branch = st.body if tv else st.orelse
+                got = taken(branch, sval)
+                if got is not None or tv:
+                    return got
+                continue
+            if isinstance(st, ast.Return):
+                return st
+            if isinstance(st, (ast.Expr, ast.Pass)):
+                continue
+            return None
+        return None
+
+    for sval, (wname, ret) in sorted(spellings.items()):
+        rt = taken(b2f.body, sval)
+        ok = rt is not None and rt.value is not None
+        detail = f"{wname} can return `{sval}` and no test at the head of bin2float takes it: the significand/exponent parser is reached and raises on a string without `p`"
+        if ok:
+            txt = norm_src(rt.value)
+            want = "nan" if "nan" in sval else "inf" if "inf" in sval else "0"
+            ok = want in txt
+            detail = f"bin2float maps the spelling `{sval}` to `{txt}`"
+        r.ob(rule, f"{REL}::bin2float reads the spelling `{sval}` written by {wname}", ok, detail, loc(REL, rt if rt is not None else b2f))
+
+
 def run(repo, tier):
     r = Report("C13", tier, repo, level="other", design_ref="§3/C13")
     r.explanation = (
@@ -693,6 +906,9 @@ def run(repo, tier):
     r.rule("R13.5", "mpf2multiword: every word carries x's sign, a slice (man & (mask << o)) >> o of its mantissa, the exponent exp + o and the slice's bit length; multiword2mpf sums every word once", floor=2)
     r.rule("R13.6", "mpf2float, bin2float, fraction2float, number2float: every returned value is constructed in the requested format (no NumPy promotion by an operand of another type)", floor=15)
     r.rule("R13.7", "converters: a constant +infinity is produced only under a test that distinguishes the sign of the converted value (infinities map to themselves)", floor=4)
+    r.rule("R13.8", "the binary string round trip keeps the sign of zero: float2bin distinguishes the sign bit where it spells zero, bin2float turns the negative-zero spelling into a float negative zero", floor=2)
+    r.rule("R13.9", "an expansion / multiword producer that can return the empty list (zero) is matched by a converter back that does not index it unguarded", floor=2)
+    r.rule("R13.10", "every exponent-less spelling float2bin / mpf2bin can return (0, inf, -inf, nan ...) is taken by a test at the head of bin2float and mapped to the value it spells", floor=4)
     r.rule("R13.3", "float2fraction decodes the IEEE fields exactly: for every finite bit pattern num/denom equals (-1)^s * significand * 2^exponent", floor=18)
     r.rule("R13.1", "format tables agree with IEEE-754 binary16/32/64 (widths, exponent/significand bits, precision, exponent ranges)", floor=30)
     n = check_format_dicts(r, repo)
@@ -719,4 +935,7 @@ def run(repo, tier):
     check_mpf2multiword(r, repo)
     check_result_format(r, repo)
     check_infinity_sign(r, repo)
+    check_signed_zero_string(r, repo)
+    check_empty_expansion(r, repo)
+    check_special_spellings(r, repo)
     return r
